@@ -144,6 +144,11 @@ J gen_tunnel(uint64_t seed, const J &ov)
 	if (mode == "relayfam") for (auto &c : cl.a) {
 		// everything the property calls "automatic": codecs and fragment size always autodetected, the type in ~60% of runs
 		c.set("raw", false); c.set("downenc", ""); c.set("fragsize", 0);
+		// ... and in a quarter of the runs the user forces a downstream codec (-O) and/or a fragment size (-m): a forced codec that
+		// does not survive the path may make the handshake fail, but never complete with settings that do not work
+		// (never both: with -O and -m forced the client tests nothing at all, and nothing is promised)
+		if (r.chance(0.25)) { static const char *de[] = {"base32", "base64", "base64u", "base128", "raw"}; c.set("downenc", de[r.range(0, 4)]); }
+		else if (r.chance(0.15)) c.set("fragsize", (int)r.range(50, 100));     // a size every type, codec and 512-byte limit can carry
 		if (r.chance(0.6)) c.set("qtype", "");
 		else if (c.gets("qtype").empty()) c.set("qtype", TYPES[r.range(0, 6)]);
 		c.set("lat_up_us", (long long)r.range(100, 5000)); c.set("lat_dn_us", (long long)r.range(100, 5000));
@@ -348,6 +353,13 @@ J gen_tunnel(uint64_t seed, const J &ov)
 		J rl = gen_relay(r);
 		if (ov.has("relay_case_q")) rl.set("case_q", ov.gets("relay_case_q"));
 		cfg.set("relay", rl);
+		{
+			// forced -O together with forced -m only where the path garbles the server's confirmation of that codec visibly
+			// (case folding vs Base64/Base64u, 8-bit stripping vs Base128/Raw): the client has something to notice then
+			J cl2 = cfg["clients"]; std::string de = cl2.a[0].gets("downenc");
+			bool visible = (de == "base64" || de == "base64u") && rl.gets("case_a", "keep") != "keep" && (rl.gets("case_a") == "lower" || rl.gets("case_a") == "upper");     // "QmFzZTY0" folded is not "Base64" any more
+			if (visible && r.chance(0.7)) { cl2.a[0].set("fragsize", (int)r.range(50, 100)); cfg.set("clients", cl2); }
+		}
 		gen_traffic(r, ops, "c0", r.chance(0.5) ? "srv" : "ext", (int)r.range(8, 25), 0.1, W, ser, 1200, true);
 		gen_traffic(r, ops, "srv", "c0", (int)r.range(8, 25), 0.1, W, ser, 1200, true);
 		cfg.set("dur_s", (int)(W + 45));
@@ -357,7 +369,12 @@ J gen_tunnel(uint64_t seed, const J &ov)
 			// two sessions on one slot over two different paths: the client is stopped, the slot expires, the path changes, a new
 			// client negotiates afresh; whatever the first session selected must not survive in the server's slot
 			cfg.set("two_sessions", true);
-			cfg.set("relay2", gen_relay(r));
+			{
+				J r2 = gen_relay(r); J cl3 = cfg["clients"];
+				// forced -O with forced -m: the second path must garble the confirmation visibly as well (see above)
+				if (cl3.a[0].has("fragsize") && cl3.a[0].gets("downenc", "") != "" && cl3.a[0].gets("downenc") != "base32") r2.set("case_a", r.chance(0.5) ? "upper" : "lower");
+				cfg.set("relay2", r2);
+			}
 			double tr = W + 20, after = 62 + r.uniform() * 8;
 			{ J op = J::obj(); op.set("t", (long long)(tr * 1e6)); op.set("op", "restart"); op.set("task", "c0"); op.set("after_us", (long long)(after * 1e6)); ops.push(op); }
 			{ J op = J::obj(); op.set("t", (long long)((tr + 1) * 1e6)); op.set("op", "relay_switch"); ops.push(op); }
@@ -499,7 +516,7 @@ World *build_tunnel(const J &plan)
 			static const int qts[7] = {QT_NULL, QT_PRIVATE, QT_TXT, QT_SRV, QT_MX, QT_CNAME, QT_A};
 			bool some_type = false;
 			for (int i = 0; i < 7; i++) { if (!ft.empty() && ft != TYPES[i]) continue; if (rl->passes_type(qts[i])) some_type = true; }
-			bool must = some_type && (rl->maxans == 0 || rl->maxans >= 512);
+			bool must = some_type && (rl->maxans == 0 || rl->maxans >= 512) && (c0.gets("downenc").empty() || c0.gets("downenc") == "base32");
 			ww->probes[must ? "c11.second.must_succeed" : "c11.second.may_fail"]++;
 			if (ww->clients[1].in_tunnel) ww->probes["c11.second.handshake_ok"]++;
 			else if (must && ww->clients[0].in_tunnel) ww->S.violations.push_back({"C11", "negotiation.failed.second", "second session on the same slot: the new path passes Base32 names, answers up to 512 bytes and a usable record type (" + rl->sig() + "; the first session ran over " + *sig1 + "), but the new client's handshake did not complete"});
@@ -516,7 +533,7 @@ World *build_tunnel(const J &plan)
 			bool some_type = false;
 			for (int i = 0; i < 7; i++) { if (!ft.empty() && ft != TYPES[i]) continue; if (rl->passes_type(qts[i])) some_type = true; }
 			bool size_ok = rl->maxans == 0 || rl->maxans >= 512;
-			bool must = some_type && size_ok;
+			bool must = some_type && size_ok && (c0.gets("downenc").empty() || c0.gets("downenc") == "base32");     // a forced codec the path damages may end the handshake
 			ww->probes[must ? "c11.must_succeed" : "c11.may_fail"]++;
 			if (ww->all_in_tunnel) {
 				ww->probes["c11.handshake_ok"]++;
